@@ -940,7 +940,7 @@ class Harness(object):
         self.tick += 1
         self.sim.now += dt
         for k, t in list(self.expiry.items()):
-            if self.sim.now >= t:
+            if self.sim.now > t:       # (Redis: a key is expired when now > its expiry instant)
                 self.m_del(k)
                 self.probe("keys-expired")
         self.server.sweep()
